@@ -175,6 +175,12 @@ pub const POLLUTERS: &[&str] = &[
     "`timescale 1ns / 1ps // c\nmodule",
     "`unconnected_drive",
     "`begin_keywords \"1364-2001-noconfig\"\nmodule m; wire config; endmodule",
+    // failures one or more levels inside an expansion (whatever is counted or pushed on the way down has to be
+    // undone on the way up)
+    "`define Q `UNDEFINED_INSIDE\n`Q",
+    "`define P1(a) a `P2(a)\n`define P2(b) `P3()\n`define P3(c) c\n`P1(x)",
+    "`define I `include \"nonexistent_file.svh\"\n`I\n",
+    "`define S \"unterminated\n`S",
 ];
 
 /// probes that are sensitive to each kind of residue
@@ -193,6 +199,8 @@ pub const PROBES: &[&str] = &[
     "`define begin_keywords 1\n",
     "module m; logic define, include, undef, timescale; endmodule",
     "`begin_keywords \"1364-2001\"\nmodule m; wire logic; endmodule\n`end_keywords\nmodule n; wire logic; endmodule\n",
+    "`define A1 1\n`define B1 (`A1 + `A1)\n`define C1(x) (`B1 * x)\nmodule m; assign w = `C1(`B1); endmodule\n",
+    "`define L0 0\n`define L1 `L0\n`define L2 `L1\n`define L3 `L2\n`define L4 `L3\n`define L5 `L4\n`define L6 `L5\n`define L7 `L6\nmodule m; wire [`L7:0] w; endmodule\n",
 ];
 
 /// texts whose result depends on which file an include name resolves to (C07 gives the directories)
